@@ -663,7 +663,7 @@ Proof.
     assert (Rg : in_range j (lr_pos j s) = true).
     { unfold in_range. rewrite Pp. destruct (Z.leb_spec 0 (off_of j (j_cid s1) + ci_pos c1)); [|lia].
       destruct (Z.ltb_spec (off_of j (j_cid s1) + ci_pos c1) (total j)); [reflexivity|lia]. }
-    rewrite Rg. rewrite (ci_next_spec (c_cnt c) c1) by (assumption || lia). cbv zeta. rewrite Nq.
+    rewrite Rg, Pp. rewrite (ci_next_spec (c_cnt c) c1) by (assumption || lia). cbv zeta. rewrite Nq.
     destruct (Z.leb_spec 0 (ci_pos c1)); [|lia]. destruct (Z.ltb_spec (ci_pos c1) (c_cnt c)); [|lia]. cbn [andb ci_pos].
     rewrite Ibk, B1. destruct (j_bk s) eqn:B.
     + (* backward *)
@@ -684,10 +684,9 @@ Proof.
       * unfold lr_inv. cbn [j_ci j_cid j_bk]. split; [exact W|]. split; [eauto|]. rewrite Hc. unfold ci_inv. cbn. split; [lia|reflexivity].
       * unfold lr_pos. cbn [j_ci j_cid]. rewrite Hc. unfold ci_norm. cbn [ci_bk ci_pos].
         destruct (Z.ltb_spec (ci_pos c1 + 1) 0); lia.
-  - split; [exact I1|]. split; [exact B1|]. rewrite P1. rewrite <- P1 at 1.
-    rewrite (lr_eof_pos j s1 W E1 S1), B1. unfold in_range. destruct (j_bk s); [reflexivity|].
-    destruct (Z.ltb_spec (total j) (total j)); [lia|]. rewrite andb_false_r. rewrite <- B1 at 1.
-    rewrite <- P1. rewrite (lr_eof_pos j s1 W E1 S1), B1. reflexivity.
+  - assert (Pe : lr_pos j s = if j_bk s then -1 else total j) by (rewrite <- P1, (lr_eof_pos j s1 W E1 S1), B1; reflexivity).
+    split; [exact I1|]. split; [exact B1|]. rewrite P1. unfold in_range. rewrite Pe. destruct (j_bk s); [reflexivity|].
+    destruct (Z.ltb_spec (total j) (total j)); [lia|]. rewrite andb_false_r. reflexivity.
 Qed.
 
 Lemma last_le_none_first j x : wf_journal j -> last_le j x = None ->
@@ -742,46 +741,77 @@ Proof.
 Qed.
 
 (* ------------------------------------------------------------------ the leaf contract, concretely *)
+Lemma lr_flip_inv j s b : lr_inv j s -> lr_inv j (jit_set_backward b s) /\ j_bk (jit_set_backward b s) = b.
+Proof.
+  intros (W & I). unfold jit_set_backward. destruct (Bool.eqb (j_bk s) b) eqn:E.
+  - apply Bool.eqb_prop in E. split; [split; assumption|exact E].
+  - unfold lr_inv. cbn [j_ci j_cid j_bk]. split; [|reflexivity]. split; [exact W|].
+    destruct (j_ci s) as [ci|]; cbn [option_map]; [|exact I]. destruct I as (Hex & Ici & Ibk).
+    split; [exact Hex|]. split; [exact Ici|reflexivity].
+Qed.
+
 (* what a leaf delivers from its current state in its current direction *)
 Definition leaf_rest (l : leaf) : list ev :=
   match l with
   | LMem _ recs c => mem_rest recs c
-  | LR j s => []
+  | LR j s => rest_at (flat j) (j_bk s) (lr_pos j s)
   | LP j s => []
   end.
-(* well-formed leaf states moving in direction bk *)
+(* well-formed leaf states moving in direction bk: in-memory sources, and journals (ids increasing, chunks
+   non-empty) read through the journal iterator of the range library *)
 Definition leaf_ok (bk : bool) (l : leaf) : Prop :=
   match l with
   | LMem _ recs c => ci_inv (Z.of_nat (length recs)) c /\ ci_bk c = bk
-  | LR j s => False
+  | LR j s => lr_inv j s /\ j_bk s = bk
   | LP j s => False
   end.
+
+Lemma lr_out_hd j s : lr_inv j s -> lr_out j (lr_pos j s) = hd_error (rest_at (flat j) (j_bk s) (lr_pos j s)).
+Proof.
+  intros I. pose proof (lr_pos_range j s I) as R. unfold lr_out.
+  destruct (Z.leb_spec 0 (lr_pos j s)); destruct (Z.ltb_spec (lr_pos j s) (total j)); cbn [andb].
+  - rewrite rest_at_hd by (unfold total in *; lia). reflexivity.
+  - destruct (j_bk s); [unfold total in *; lia|]. rewrite rest_at_fwd_end by (unfold total in *; lia). reflexivity.
+  - destruct (j_bk s); [|lia]. rewrite rest_at_bwd_end by lia. reflexivity.
+  - pose proof (total_nonneg j). lia.
+Qed.
 
 Lemma leaf_get_spec bk l : leaf_ok bk l ->
   leaf_ok bk (fst (l_get l)) /\ leaf_rest (fst (l_get l)) = leaf_rest l /\ snd (l_get l) = hd_error (leaf_rest l).
 Proof.
   destruct l as [m recs c|j s|j s]; cbn [leaf_ok]; try contradiction.
-  intros [I B]. destruct (mem_get_spec m recs c I) as (c' & E & I' & R & B'). rewrite E. cbn [fst snd leaf_ok leaf_rest].
-  split; [split; [exact I'|congruence]|split; [exact R|reflexivity]].
+  - intros [I B]. destruct (mem_get_spec m recs c I) as (c' & E & I' & R & B'). rewrite E. cbn [fst snd leaf_ok leaf_rest].
+    split; [split; [exact I'|congruence]|split; [exact R|reflexivity]].
+  - intros [I B]. destruct (lr_get_spec j s I) as (s' & G & I' & B' & P' & _). cbn [l_get]. rewrite G. cbn [fst snd leaf_ok leaf_rest].
+    split; [split; [exact I'|congruence]|]. rewrite B', P'. split; [reflexivity|apply lr_out_hd; exact I].
 Qed.
 
 Lemma leaf_next_spec bk l : leaf_ok bk l -> leaf_ok bk (l_next l) /\ leaf_rest (l_next l) = tl (leaf_rest l).
 Proof.
   destruct l as [m recs c|j s|j s]; cbn [leaf_ok]; try contradiction.
-  intros [I B]. destruct (mem_next_spec m recs c I) as (c' & E & I' & R & B'). rewrite E. cbn [leaf_ok leaf_rest].
-  split; [split; [exact I'|congruence]|exact R].
+  - intros [I B]. destruct (mem_next_spec m recs c I) as (c' & E & I' & R & B'). rewrite E. cbn [leaf_ok leaf_rest].
+    split; [split; [exact I'|congruence]|exact R].
+  - intros [I B]. destruct (lr_next_spec j s I) as (I' & B' & P'). cbn [l_next leaf_ok leaf_rest].
+    split; [split; [exact I'|congruence]|]. rewrite B', P'. cbv zeta. pose proof (lr_pos_range j s I) as R. unfold in_range.
+    destruct (Z.leb_spec 0 (lr_pos j s)); destruct (Z.ltb_spec (lr_pos j s) (total j)); cbn [andb].
+    + destruct (j_bk s); [rewrite rest_at_tl_bwd by (unfold total in *; lia)|rewrite rest_at_tl_fwd by lia]; reflexivity.
+    + destruct (j_bk s); [unfold total in *; lia|]. rewrite rest_at_fwd_end by (unfold total in *; lia). reflexivity.
+    + destruct (j_bk s); [|lia]. rewrite rest_at_bwd_end by lia. reflexivity.
+    + pose proof (total_nonneg j). lia.
 Qed.
 
 (* switching the direction of a well-formed forward leaf *)
 Lemma leaf_set_backward_ok bk l : leaf_ok false l -> leaf_ok bk (l_set_backward bk l).
 Proof.
   destruct l as [m recs c|j s|j s]; cbn [leaf_ok]; try contradiction.
-  intros [I B]. cbn [l_set_backward leaf_ok ci_set_backward ci_bk]. split; [exact I|reflexivity].
+  - intros [I B]. cbn [l_set_backward leaf_ok ci_set_backward ci_bk]. split; [exact I|reflexivity].
+  - intros [I B]. cbn [l_set_backward leaf_ok]. apply lr_flip_inv. exact I.
 Qed.
 Lemma leaf_set_backward_same l : leaf_ok false l -> l_set_backward false l = l.
 Proof.
   destruct l as [m recs c|j s|j s]; cbn [leaf_ok]; try contradiction.
-  intros [I B]. cbn. destruct c as [p b]. cbn in B. subst b. reflexivity.
+  - intros [I B]. cbn. destruct c as [p b]. cbn in B. subst b. reflexivity.
+  - intros [I B]. cbn. unfold jit_set_backward. rewrite B. reflexivity.
 Qed.
 
 (* a source stored in time order delivers in time order, in either direction *)
